@@ -369,7 +369,7 @@ def gen_c09(engine, mode):
         asyncish = engine == "async"
         mg = MachineGen(rng, prof(n_states=(3, 8), max_depth=rng.choice((2, 3)), p_invoke=0.5,
                                   p_shared_invoke_id=(0.5 if rng.random() < 0.4 else 0.0),
-                                  svc_kinds=(("coro", "coro", "sync") if asyncish else ("sync",)),
+                                  svc_kinds=(("coro", "coro", "sync", "machine") if asyncish else ("sync", "sync", "machine")),
                                   events=3, p_trans=0.5, p_history=0.05, p_parallel=0.12, p_always=0.05, p_raise=0.05,
                                   p_slow_act=0.1, p_async_act=(0.1 if asyncish else 0.0), root_final=False, p_final=0.05,
                                   w_target={"none": 1, "self_re": 2, "sibling": 6, "any": 4}))
@@ -852,7 +852,8 @@ def gen_c14(engine, mode):
     def g(seed):
         rng = _rng(seed, 140 + len(mode))
         asyncish = engine == "async"
-        mg = MachineGen(rng, prof(n_states=(3, 8), p_after=0.35, p_invoke=0.3, svc_kinds=(("coro", "sync") if asyncish else ("sync",)),
+        mg = MachineGen(rng, prof(n_states=(3, 8), p_after=0.35, p_invoke=0.3,
+                                  svc_kinds=(("coro", "sync", "machine") if asyncish else ("sync", "sync", "machine")),
                                   p_delayed_raise=0.2, p_raise=0.05, p_final=0.12, p_history=0.05, p_parallel=0.15, p_always=0.05,
                                   p_slow_act=0.08, p_async_act=(0.1 if asyncish else 0.0), events=3,
                                   p_stop_act=(0.06 if mode == "inside" else 0.0)))
